@@ -273,7 +273,9 @@ def run_case(case):
                 db, kb, _ = scenario(b, seed)
                 for xa, xb in ((("-m", "443:9000"), ("-m",)), ((), ("-c",)), (("-c",), ()), (("-a",), ()), (("-p", "8443", "-m", "8443:1"), ()),
                                (("-g",), ("-m", "44330:7"))):
-                    fresh = harness.run_tlexport(db, kb, xb)
+                    # the reference comes from a FRESH PROCESS: an in-process reference would share whatever the interpreter
+                    # has memoised since its first run
+                    fresh = harness.run_cli(db, kb, args=list(xb))
                     harness.reset_state()
                     harness.run_tlexport(da, ka, xa, reset=False)
                     r2 = harness.run_tlexport(db, kb, xb, reset=False, keep_output=True)
